@@ -128,7 +128,7 @@ UNDEF_NAME, LATER_NAME, REB_NAME = 6, 7, 8
 
 HEADER = (
     "from typing import *\nimport typing\nimport collections.abc as cabc\n"
-    "from harness.universe import A, B, Cc, D, Color, IE, NT0, NT1, NT2\n"
+    "from harness.universe import A, B, Cc, D, Color, IE, Fl, NT0, NT1, NT2\n"
     "complex = B\nTimeoutError = Cc\nWarning = IE\nMyInt = int\nMyList = List\nReb = A\nARGB = B()\n"
 )
 FOOTER = "Later = D\nReb = B\n"
